@@ -532,7 +532,16 @@ ExecOp(m, f, o) ==   \* f: top frame with ptr already advanced to o
                          ex == Peek(f, 2)
                      IN IF ex.v.t # "str" THEN Panic(SetTop(m, f), "trace-expr")
                         ELSE next(Push(Drop(f, 2), v.v, v.p))
-           [] OTHER -> Unmod(m)     \* Regex / Import / Include / Out / Assert / Convert: other specifications
+           [] o.hook = "Regex" ->
+                IF Depth(f) < 2 THEN Panic(SetTop(m, f), "hook-underflow")
+                ELSE LET subj == Peek(f, 1)          \* the left operand is on top
+                         pat  == Peek(f, 2)
+                         f2 == Drop(f, 2)
+                     IN IF subj.v.t # "str" THEN Fail(SetTop(m, Drop(f, 1)), subj.p)
+                        ELSE IF pat.v.t # "str" THEN Fail(SetTop(m, f2), pat.p)
+                        ELSE IF ~PlainPattern(pat.v.s) THEN Unmod(m)
+                        ELSE next(Push(f2, BoolV(IsSubstr(pat.v.s, subj.v.s)), p))
+           [] OTHER -> Unmod(m)     \* Import / Include / Out / Assert / Convert: other specifications
 
 (* ---- the step function ------------------------------------------------------ *)
 (* design-only check (absent under "AndOrRightUnchecked"): when control reaches *)
